@@ -134,6 +134,14 @@ where
         (if Val.pyEq (.tuple keys) k then .ok v else scan k rest)
       else if keys.any (Val.pyEq k) then .ok v else scan k rest
 
+/-- the text of an f-string: `format(x, '')` of every part, concatenated -/
+def fmtAll : List Val → R String
+  | [] => .ok ""
+  | v :: vs => do
+    let s ← Val.pyStr v
+    let rest ← fmtAll vs
+    pure (s ++ rest)
+
 def applyBin (op : BinOp) (a b : Val) : R Val :=
   match op with
   | .add => Val.add a b
@@ -179,7 +187,8 @@ def applyMethod (m : Method) (s : String) (args : List Val) : R Val :=
   | .lower, [] => (Val.pyLower s).map .str
   | .strip, [] => .ok (.str (Val.pyStrip s))
   | .strip, [.none] => .ok (.str (Val.pyStrip s))
-  | .strip, [_] => .error .unsupported
+  | .strip, [.str cs] => .ok (.str (Val.pyStripSet s cs))
+  | .strip, [_] => .error .typeError
   | .split, [] => .ok (.list ((Val.splitWs [] s.toList).map fun cs => .str (String.ofList cs)))
   | .split, [.none] => .ok (.list ((Val.splitWs [] s.toList).map fun cs => .str (String.ofList cs)))
   | .split, [.str sep] =>
@@ -257,7 +266,7 @@ mutual
         (Prog.lift (qualify ctx k)).bind fun n => .readV n .pure
     | .fstr parts =>
       (evalArgs ctx env parts).bind fun vs =>
-        (Prog.lift (vs.mapM Val.pyStr)).bind fun ss => .pure (.str (String.join ss))
+        (Prog.lift (fmtAll vs)).bind fun s => .pure (.str s)
     | .bin op a b =>
       (evalExpr ctx env a).bind fun x =>
         (evalExpr ctx env b).bind fun y => Prog.lift (applyBin op x y)
@@ -295,13 +304,21 @@ mutual
         match f with
         | .str fname =>
           .needForm fname <|
-            match ctx.year.classes.find? (fun c => c.name == classOf fname) with
+            -- the solver's form map: of two classes with the same name the later one wins
+            match ctx.year.classes.reverse.find? (fun c => c.name == classOf fname) with
             | none => .err .internal
             | some c =>
               (evalExpr ctx env name).bind fun n =>
                 if hasKey then
                   (evalExpr ctx env key).bind fun k => Prog.lift (lookupThreshold c.thresholds n (some k))
                 else Prog.lift (lookupThreshold c.thresholds n none)
+        | .list _ => .err .typeError
+        | .dict _ _ => .err .typeError
+        | _ => .err .keyError
+    | .loadedForm form =>
+      (evalExpr ctx env form).bind fun f =>
+        match f with
+        | .str fname => .needForm fname (.pure .none)
         | .list _ => .err .typeError
         | .dict _ _ => .err .typeError
         | _ => .err .keyError
@@ -402,8 +419,10 @@ mutual
         match old with
         | .list xs => (evalExpr ctx env e).bind fun v => .pure (.next (env.set x (.list (xs ++ [v]))))
         | _ => .err .attributeError
-    | .assertS c =>
-      (evalExpr ctx env c).bind fun v => if v.truthy then .pure (.next env) else .err .assertionError
+    | .assertS c msg =>
+      (evalExpr ctx env c).bind fun v =>
+        if v.truthy then .pure (.next env)
+        else (evalExpr ctx env msg).bind fun _ => .err .assertionError
     | .continueS => .pure (.cont env)
     | .breakS => .pure (.brk env)
     | .pass => .pure (.next env)
